@@ -5,7 +5,8 @@ from a JSON value alphabet (null, booleans, boundary / huge / negative numbers, 
 floats, numeric strings, valid / malformed hex of every wrong length, literal option strings,
 containers), positional and by name, too few and too many, sent as JSON bytes through aiorpcx's
 RSTransport into a real ElectrumX session on a populated index (incl. a 253-tx block so the
-merkle-cache path runs) with a second, subscribed client connected.
+merkle-cache path runs) with a second, subscribed client connected; the handshake requests
+also against a server configured with DROP_CLIENT.
 Oracle: every request gets a reply that is a result or an error whose code is not INTERNAL_ERROR;
 a refused request leaves the session's subscriptions untouched and may add to the server caches
 only entries that equal a fresh read; after all the traffic the other client is told exactly
@@ -61,18 +62,29 @@ def alphabet():
     full = [None, True, False, 0, 1, -1, 2, tip - 1, tip, tip + 1, 5, 2016, 2017, 2 ** 31, 2 ** 63,
             2 ** 64, 10 ** 30, 10 ** 400, -(10 ** 400), 0.5, -0.5, 5.0, 1e308, inf, -inf, float('nan'),
             '', '0', '5', '-1', ' 5', '٣', '1e3', sh, sh_none, sh.upper(), sh[:-1], sh + 'a',
-            'z' * 64, tx5, tx2, '00' * 32, 'tx', 'txid', 'block_header', 'merkle_root', 'block_hash',
+            'z' * 64, sh[:-2] + '  ', ' ' * 64, '73' + ' ' * 62, sh[:32] + '  ' + sh[32:],
+            'badclient 1.0', tx5[:-2] + '\t\n', tx5, tx2, '00' * 32, 'tx', 'txid', 'block_header', 'merkle_root', 'block_hash',
             'x' * 10000, [], [1], [[]], {}, {'a': {'b': [1]}}, {'hosts': {'example.com': {'tcp_port': True}}}]
     small = [None, True, 0, 1, -1, tip, tip + 1, 5, 2017, 2 ** 64, 10 ** 400, 0.5, inf, float('nan'),
-             '', '5', sh, sh_none, sh[:-1], tx5, tx2, 'tx', 'merkle_root', [], {}, [1], 'x' * 10000,
+             '', '5', sh, sh_none, sh[:-1], sh[:-2] + '  ', tx5, tx2, 'tx', 'merkle_root', [], {}, [1], 'x' * 10000,
              -(10 ** 400), 252, 253]
     tiny = [None, True, 0, 5, tip + 1, 10 ** 400, inf, 0.5, '5', sh, tx5, tx2, 'tx', 'block_header',
             []]
     return full, small, tiny
 
 
-def boot():
-    s = system.System(reorg_limit=5, max_send=None)
+CONFIGS = {None: {}, 'drop': {'DROP_CLIENT': 'badclient.*'}}
+HEX64 = __import__('re').compile(r'[0-9a-fA-F]{64}\Z')
+
+
+def well_formed_hash(v):
+    '''Independent (lenient) notion of a 32-byte hash argument: 64 hex digits, ASCII white space
+    ignored (Python's bytes.fromhex skips it, which is harmless).'''
+    return isinstance(v, str) and bool(HEX64.match(''.join(v.split())))
+
+
+def boot(config=None):
+    s = system.System(reorg_limit=5, max_send=None, extra_env=dict(CONFIGS[config]))
     s.boot(reorgrun.sim_for(BASE).blocks)
     other = s.connect(name='o')
     other.call('server.version', ['other', '1.4.2'])
@@ -82,6 +94,7 @@ def boot():
     return s, other
 
 
+MISSING = object()
 PROBES = [('blockchain.scripthash.get_history', 'A'), ('blockchain.scripthash.get_balance', 'B'),
           ('blockchain.scripthash.listunspent', 'D')]
 
@@ -100,18 +113,17 @@ def finish_run(s, other):
     return out
 
 
-_BASELINE = None
+_BASELINE = {}
 
 
-def baseline():
-    global _BASELINE
-    if _BASELINE is None:
-        s, other = boot()
+def baseline(config=None):
+    if config not in _BASELINE:
+        s, other = boot(config)
         try:
-            _BASELINE = finish_run(s, other)
+            _BASELINE[config] = finish_run(s, other)
         finally:
             s.close()
-    return _BASELINE
+    return _BASELINE[config]
 
 
 def snapshot(session, sm):
@@ -149,7 +161,8 @@ def run_case(case, res):
             if 'first' in case:             # split a big product by its first element
                 combos = ((alpha[case['first']],) + c for c in itertools.product(alpha, repeat=arity - 1))
             plist = [list(c) for c in combos]
-    s, other = boot()
+    config = case.get('config')
+    s, other = boot(config)
     sm = s.session_mgr
     client = None
     n_other0 = len(other.messages)
@@ -186,6 +199,13 @@ def run_case(case, res):
                                 bad = ('refused-request-corrupted-cache', dict(why=why))
                 elif 'result' in r:
                     res.count('answered')
+                    # a script hash that is not one cannot have a well-formed answer
+                    if names[:1] == ('scripthash',):
+                        arg = params.get('scripthash', MISSING) if isinstance(params, dict) else \
+                            (params[0] if params else MISSING)
+                        if arg is not MISSING and not well_formed_hash(arg):
+                            bad = ('malformed-script-hash-accepted', dict(
+                                subscriptions_changed=snapshot(client.session, sm)[:3] != before[:3]))
                 else:
                     bad = ('malformed-reply', dict(reply=str(r)[:200]))
             if len(other.messages) != n_other0:
@@ -194,15 +214,16 @@ def run_case(case, res):
             if bad:
                 shape = [type(p).__name__ for p in (params.values() if isinstance(params, dict) else params)]
                 res.violation(f'{bad[0]}:{method}', dict(method=method, arity=arity, alpha=case['alpha'],
-                                                         params=json.dumps(params)),
+                                                         params=json.dumps(params), config=config),
                               dict(method=method, params=json.dumps(params)[:300], **bad[1]))
         # differential: what the other client is told afterwards
         got = finish_run(s, other)
-        if got != baseline():
-            idx = next(i for i, (a, b) in enumerate(zip(got, baseline())) if a != b)
+        if got != baseline(config):
+            idx = next(i for i, (a, b) in enumerate(zip(got, baseline(config))) if a != b)
             res.violation(f'other-client-told-something-else:{method}',
                           dict(method=method, arity=arity, alpha=case['alpha'],
-                               by_name=case.get('by_name'), first=case.get('first')),
+                               by_name=case.get('by_name'), first=case.get('first'),
+                               config=config),
                           dict(method=method, differing_item=idx))
         res.count('differential_runs')
         res.distinct('methods', method)
@@ -245,6 +266,8 @@ def cases_for(tier):
         if n:
             cases.append(dict(method=method, arity=min(n, 2), alpha='small' if n <= 2 else 'tiny',
                               by_name=True))
+    # the same requests against a server run with the documented DROP_CLIENT setting
+    cases += [dict(c, config='drop') for c in cases if c['method'] == 'server.version']
     return cases
 
 
@@ -255,11 +278,12 @@ def run(tier, seed, started):
     if c.get('requests', 0) < 50000 or res.sets.get('methods') != set(METHODS) or \
             not c.get('answered') or not c.get('refused'):
         raise common.Broken(f'vacuous C16 run: {c}')
+    sizes = [len(a) for a in alphabet()]
     coverage = {
         'evaluations': c['requests'],
         'distinct_nontrivial': c['requests'] - c.get('answered', 0),
-        'rule': ('every method x full product of the JSON alphabet for arity 0..2 (54 values), arity 3 '
-                 'over 30 (quick) / 54 values, arity 4 over 15 / 30 values, one too many, and by-name '
+        'rule': (f'every method x full product of the JSON alphabet for arity 0..2 ({sizes[0]} values), arity 3 '
+                 f'over {sizes[1]} (quick) / {sizes[0]} values, arity 4 over {sizes[2]} / {sizes[1]} values, one too many, and by-name '
                  'forms; non-trivial = requests that were refused (malformed for that method)'),
         'answered': c['answered'], 'refused': c['refused'],
         'differential_runs': c['differential_runs'],
